@@ -303,6 +303,42 @@ def r6_demand_driven_seq_functions(ctx):
                     uses = [x for x in L.walk(b) if L.head(x) in ("first", "rest", "next") and len(x.items) == 2 and L.is_sym(x.items[1], p)]
                     if uses:
                         problems.append(f"`{p}` is tested with (seq {p}) but then walked raw (`{uses[0].text()}`): a non-seq iterable is coerced again for every access")
+            # one step ahead (a): the arguments of the self-call that continues the sequence are evaluated
+            # when the *current* cell is realized; applying a function parameter there (iterate's (f x))
+            # computes the next element before anyone asked for it -- unless the self-call is deferred in
+            # a lazy-seq of its own
+            fparams = {p for p in pnames if p in ("f", "pred", "g", "keyfn", "xf")}
+            for b in body:
+                for lz in (x for x in L.walk(b) if L.head(x) in ("lazy-seq",)):
+                    if any(L.head(a) == "lazy-seq" for a in L.ancestors(lz)):
+                        continue  # judge from the outermost lazy body
+                    for call in (c for c in L.walk(lz) if L.head(c) == name and c is not lz):
+                        deferred = False
+                        for a in L.ancestors(call):
+                            if a is lz:
+                                break
+                            if L.head(a) in ("lazy-seq", "fn", "fn*", "delay"):
+                                deferred = True
+                        if deferred:
+                            continue
+                        eager = [x for arg in call.items[1:] for x in L.walk(arg) if isinstance(x, L.List) and x.items and isinstance(x.items[0], L.Sym) and x.items[0].val in fparams]
+                        if eager:
+                            problems.append(f"`{call.text()[:50]}` applies `{eager[0].items[0].val}` in the arguments of the call that continues the sequence: the next element is computed as soon as the current one is realized")
+            # one step ahead (b): a body that returns (first coll) as its head must not test the element
+            # after it first ((seq (rest coll)) / (next coll) as a branch condition)
+            for b in body:
+                for lz in (x for x in L.walk(b) if L.head(x) == "lazy-seq"):
+                    heads = [c for c in L.walk(lz) if L.head(c) == "cons" and len(c.items) == 3 and L.head(c.items[1]) == "first" and len(c.items[1].items) == 2 and isinstance(c.items[1].items[1], L.Sym)]
+                    for c in heads:
+                        src = c.items[1].items[1].val
+                        for a in L.ancestors(c):
+                            if a is lz:
+                                break
+                            if L.head(a) in ("if", "when", "if-not", "when-not", "cond") and len(a.items) > 1:
+                                t = a.items[1]
+                                look = [x for x in L.walk(t) if (L.head(x) == "next" and len(x.items) == 2 and L.is_sym(x.items[1], src)) or (L.head(x) == "seq" and len(x.items) == 2 and L.head(x.items[1]) in ("rest", "next") and L.is_sym(x.items[1].items[1], src))]
+                                if look:
+                                    problems.append(f"`{look[0].text()}` is tested before `{c.items[1].text()}` is returned: producing an element realizes the one after it")
             # the same one level up: a collection of collections tested with (every? seq colls) must be
             # walked through those seqs ((map seq colls) bound first), not through the raw members
             for b in body:
@@ -318,7 +354,37 @@ def r6_demand_driven_seq_functions(ctx):
         ctx.ob("C06.R6", f"{CORE}::{name}::demand-driven", CORE, d.line, not problems, "; ".join(problems[:2]))
 
 
+@rule("C06.R7", floor=1)
+def r7_seq_accessors_do_not_realize_for_impossible_indices(ctx):
+    """runtime.nth on a seq walks the seq until it reaches the index.  A negative index can never
+    be reached, so it must be answered (default / IndexError) without walking: otherwise
+    (nth lazy -1 default) realizes the whole sequence and does not return on an infinite one."""
+    fn = P.find_def(ctx.py(RT), "_nth_iseq")
+    if fn is None:
+        raise AnalysisError("anchor vanished: runtime._nth_iseq")
+    idx = fn.args.args[1].arg
+    loops = [l for l in ast.walk(fn) if isinstance(l, ast.For)]
+    if not loops:
+        raise AnalysisError("runtime._nth_iseq no longer walks its argument with a for loop")
+    guards = [c for c in ast.walk(fn) if isinstance(c, ast.Compare) and len(c.ops) == 1 and isinstance(c.ops[0], (ast.Lt, ast.GtE, ast.Gt, ast.LtE))
+              and {P.un(c.left), P.un(c.comparators[0])} == {idx, "0"}]
+    ok = False
+    for g in guards:
+        # in the loop's iterable, or in a test that precedes the loop
+        if any(P.contains(l.iter, g) for l in loops) or any(g.lineno <= l.lineno and not P.contains(l, g) for l in loops):
+            ok = True
+    ctx.ob("C06.R7", f"{RT}::_nth_iseq::a negative index is answered without walking the seq", RT, fn.lineno, ok,
+           "" if ok else "every index, negative ones included, walks the seq to its end: (nth (map f coll) -1 :nf) realizes everything, and never returns on an infinite seq",
+           witness="(nth (iterate inc 0) -1 :nf)")
+
+
 SELFTEST = [
+    {"name": "iterate computes the next element eagerly (the repaired defect)", "file": CORE, "expect": "C06.R6",
+     "old": "   (cons x (lazy-seq (iterate f (f x))))))", "new": "   (cons x (iterate f (f x)))))"},
+    {"name": "nth walks the seq for a negative index (the repaired defect)", "file": RT, "expect": "C06.R7",
+     "old": "    for j, e in enumerate(coll if i >= 0 else ()):\n", "new": "    for j, e in enumerate(coll):\n"},
+    {"name": "twin: nth rejects a negative index up front", "file": RT, "expect": None,
+     "old": "    for j, e in enumerate(coll if i >= 0 else ()):\n", "new": "    if i < 0:\n        coll = ()\n    for j, e in enumerate(coll):\n"},
     {"name": "seeded C06/a: map realises all collections at every step", "file": CORE, "expect": "C06.R6",
      "old": "                        (let [colls (map seq colls)]", "new": "                        (let [colls (vec (map seq colls))]"},
     {"name": "seeded C06/b: filter walks the raw parameter", "file": CORE, "expect": "C06.R6",
